@@ -118,6 +118,20 @@ func (c16) Gen(r *sim.RNG, tier string, idx int) *Scenario {
 		if r.Bool(0.5) {
 			injectMetaRefs(w, r)
 		}
+		if r.Bool(0.25) {
+			// a vendored variant of a meta-schema: a definition that declares the id of a built-in
+			// meta-schema but has other content. Expanding it registers it under that id - in the
+			// cache of THAT call only.
+			if root, ok := w.Docs[w.Root].(map[string]interface{}); ok {
+				if defs, ok := root["definitions"].(map[string]interface{}); ok {
+					defs["Vendored"] = map[string]interface{}{
+						"id": []string{"http://json-schema.org/draft-04/schema#", "http://json-schema.org/draft-04/schema", "http://swagger.io/v2/schema.json"}[r.Intn(3)], "description": "vendored meta-schema",
+						"definitions": map[string]interface{}{"positiveInteger": map[string]interface{}{"type": "string", "description": "not the real one"}, "info": map[string]interface{}{"type": "string", "description": "not the real one"}},
+						"properties":  map[string]interface{}{"title": map[string]interface{}{"type": "integer", "description": "not the real one"}},
+					}
+				}
+			}
+		}
 		sc.Worlds = append(sc.Worlds, w)
 	}
 	n := 2 + r.Intn(6)
